@@ -85,6 +85,36 @@ func (e *Engine) verifyFunction(fn *ssa.Function, fc *FuncContract, ifaceNames [
 		act.env[fv] = v
 		if p, ok := v.(PtrV); ok {
 			vc.assume(st, fmt.Sprintf("(> %s 0)", p.ref))
+			// a captured variable whose address this closure never hands out is out of reach of
+			// the callees of this activation
+			private := fv.Referrers() != nil
+			if private {
+				for _, r := range *fv.Referrers() {
+					switch u := r.(type) {
+					case *ssa.UnOp, *ssa.DebugRef:
+					case *ssa.Store:
+						if u.Val == ssa.Value(fv) {
+							private = false
+						}
+					default:
+						private = false
+					}
+				}
+			}
+			if private {
+				st.kept[p.ref] = true
+				vc.used["captured variables are changed only by the enclosing function and its closures"] = true
+			}
+		}
+	}
+	// distinct captured variables are distinct cells
+	for i, a := range fn.FreeVars {
+		for _, b := range fn.FreeVars[i+1:] {
+			pa, ok1 := act.env[a].(PtrV)
+			pb, ok2 := act.env[b].(PtrV)
+			if ok1 && ok2 {
+				vc.assume(st, fmt.Sprintf("(not (= %s %s))", pa.ref, pb.ref))
+			}
 		}
 	}
 	// method receivers of pointer type are non-nil whole objects
